@@ -191,6 +191,46 @@ def rust_ty(t):
     return t["ident"]
 
 
+def _style_rng(*key):
+    """deterministic pseudo-random choices derived from the declaration itself, so that a replay (which regenerates the Rust text
+    from the op lines alone) writes the same concrete spelling"""
+    h = int(hashlib.sha1("|".join(str(k) for k in key).encode()).hexdigest()[:15], 16)
+
+    class R:
+        def __init__(self, s): self.s = s
+        def below(self, n):
+            self.s = (self.s * 6364136223846793005 + 1442695040888963407) & 0xFFFFFFFFFFFFFFFF
+            return (self.s >> 33) % n if n > 0 else 0
+    return R(h)
+
+
+def spell_attrs(a, *key, keep_order=()):
+    """the same attribute set in one of its concrete spellings: ONE combined `#[dust_dds(a, b)]`, or split
+    `#[dust_dds(a)] #[dust_dds(b)]` (any grouping), in any order — except that the entries named in `keep_order`
+    (union `case`s: the first one is the label that is written) keep their relative order. Order and grouping do not
+    change the declaration (attributes.rs reads every `dust_dds` attribute), so the model's AST is the same."""
+    if not a:
+        return ""
+    r = _style_rng(*key)
+    a = list(a)
+    # shuffle, then restore the relative order of the `keep_order` entries
+    for i in range(len(a) - 1, 0, -1):
+        j = r.below(i + 1)
+        a[i], a[j] = a[j], a[i]
+    fixed = [x for x in keep_order if x in a]
+    it = iter(fixed)
+    a = [next(it) if x in fixed else x for x in a]
+    mode = r.below(3)           # 0: one combined attribute, 1: one attribute per entry, 2: random grouping
+    groups = []
+    for x in a:
+        if groups and (mode == 0 or (mode == 2 and r.below(2) == 0)):
+            groups[-1].append(x)
+        else:
+            groups.append([x])
+    sep = [" ", "\n", ""][r.below(3)]
+    return sep.join("#[dust_dds(" + ", ".join(g) + ("," if r.below(4) == 0 else "") + ")]" for g in groups) + " "
+
+
 def rust_decls(t, seen, out):
     """Rust item for every declared type of the tree (children first), once per identifier"""
     k = t["k"]
@@ -211,9 +251,7 @@ def rust_decls(t, seen, out):
         if t["nested"]:
             attrs.append("nested")
         derives = "Debug, Clone, PartialEq, DdsType" + (", Default" if defaultable(t) else "")
-        s = f"#[derive({derives})]\n"
-        if attrs:
-            s += f"#[dust_dds({', '.join(attrs)})]\n"
+        s = f"#[derive({derives})]\n" + spell_attrs(attrs, t["ident"]) + "\n"
         items = []
         for f in t["fields"]:
             a = []
@@ -222,7 +260,7 @@ def rust_decls(t, seen, out):
             if f["optional"]: a.append("optional")
             if f["nonser"]: a.append("non_serialized")
             if f["hashid"]: a.append("hashid")
-            at = f"#[dust_dds({', '.join(a)})] " if a else ""
+            at = spell_attrs(a, t["ident"], f["name"])
             items.append(at + ("" if t["tuple"] else f"{f['name']}: ") + rust_ty(f["t"]))
         if t["tuple"]:
             s += f"struct {t['ident']}({', '.join(items)});\n"
@@ -237,9 +275,7 @@ def rust_decls(t, seen, out):
             attrs.append("nested")
         if t["bits"] != 32 or len(t["ident"]) % 2 == 0:
             attrs.append(f'bit_bound = "{t["bits"]}"')
-        s = "#[derive(Debug, Clone, PartialEq, DdsType, Default)]\n"
-        if attrs:
-            s += f"#[dust_dds({', '.join(attrs)})]\n"
+        s = "#[derive(Debug, Clone, PartialEq, DdsType, Default)]\n" + spell_attrs(attrs, t["ident"]) + "\n"
         vs = []
         for i, (n, d) in enumerate(t["variants"]):
             vs.append(("#[default] " if i == t["dflt"] else "") + n + (f" = {d}" if d is not None else ""))
@@ -256,11 +292,11 @@ def rust_decls(t, seen, out):
             attrs.append(f'extensibility = "{t["ext"]}"')
         if t["nested"]:
             attrs.append("nested")
-        s = f"#[derive(Debug, Clone, PartialEq, DdsType)]\n#[dust_dds({', '.join(attrs)})]\n"
+        s = "#[derive(Debug, Clone, PartialEq, DdsType)]\n" + spell_attrs(attrs, t["ident"]) + "\n"
         vs = []
         for v in t["variants"]:
             a = [f"case = {c}" for c in v["cases"]] + (["default"] if v["default"] else [])
-            at = f"#[dust_dds({', '.join(a)})] " if a else ""
+            at = spell_attrs(a, t["ident"], v["name"], keep_order=[f"case = {c}" for c in v["cases"]])
             if v["t"] is None:
                 vs.append(at + v["name"])
             elif v["field"] is not None:
